@@ -1,5 +1,6 @@
 import OrdModel.Proofs.IndexMiscNoPanicChain
 import OrdModel.Proofs.IndexMiscNoPanicSats
+import OrdModel.Proofs.IndexMiscNoPanicInputs
 import OrdModel.Index.PanicSitesExpected
 import OrdModel.Generated.PanicSites
 /-
@@ -70,6 +71,35 @@ example : calculateSat [(10, 12), (20, 30)] 0 5 = .ok 23 := by decide
 /-- the hypothesis is needed -/
 example : calculateSat [(10, 12)] 0 2 = .panic "calculate_sat: unreachable!()" := by decide
 
+/-- Clause (c), all inputs: taking the spent entries of a transaction fails neither at
+`assert!(!have_full_utxo_index())` nor at `panic!("script pubkey entry … not found")` when every
+input is in the cache or in the table (with its address row when the address index is on) and
+the transaction spends no outpoint twice.  The address-row hypothesis is the C17 rows invariant. -/
+theorem c16_take_inputs_ok (cfg : Cfg) (ins : List TxIn) (bc : BlockCtx) (h : InputsPresent cfg bc ins) :
+    (∀ s, takeInputEntries cfg ins bc [] ≠ .panic s) ∧ (∀ e, takeInputEntries cfg ins bc [] ≠ .err e) := by
+  obtain ⟨r, hr⟩ := takeInputEntries_ok cfg ins bc [] h
+  rw [hr]
+  exact ⟨fun _ => by simp, fun _ => by simp⟩
+
+def exampleBc : BlockCtx :=
+  { st := { utxo := [(⟨7, 0⟩, ⟨5, [], [1], []⟩)], script2out := [([1], ⟨7, 0⟩)] },
+    cache := [(⟨8, 1⟩, ⟨3, [], [], []⟩)], ins := default }
+
+def addrCfg : Cfg := ⟨false, true, false, false, false, 0, 0, 0⟩
+
+example : InputsPresent addrCfg exampleBc [⟨⟨8, 1⟩, false, none, []⟩, ⟨⟨7, 0⟩, false, none, []⟩] := by
+  refine ⟨by decide, ?_⟩
+  intro i hi
+  simp only [List.mem_cons, List.not_mem_nil, or_false] at hi
+  rcases hi with rfl | rfl
+  · left; exact ⟨_, rfl⟩
+  · right; exact ⟨rfl, _, rfl, fun _ => by decide⟩
+
+/-- the hypotheses are needed: an absent input, and a table entry without its address row -/
+example : takeInputEntries addrCfg [⟨⟨9, 9⟩, false, none, []⟩] exampleBc [] =
+    .panic "assert!(!self.index.have_full_utxo_index())" := by rfl
+example : takeInputEntries addrCfg [⟨⟨7, 0⟩, false, none, []⟩]
+    { exampleBc with st := { exampleBc.st with script2out := [] } } [] = .panic "script pubkey entry not found" := by rfl
 /-! ### non-vacuity -/
 
 /-- a three-block chain: block 1 holds a transaction that spends the genesis coinbase, carries an
